@@ -9,7 +9,7 @@ THEOREMS = ["AcqVerif.C01.%s" % t for t in (
     "AcqVerif.Channel.Inv.step", "AcqVerif.Channel.Inv.run", "AcqVerif.Channel.region_bytes"]
 
 def run(ctx):
-    ctx.prove(MODULE, THEOREMS, extra_targets=DRIVERS)
+    chan.prove_with_lock_discipline(ctx, MODULE, THEOREMS, DRIVERS)
     ctx.assumptions += chan.ASSUMPTIONS
     chan.explore(ctx, chan.C01_ORACLES)
 
